@@ -419,6 +419,13 @@ func structsEqual(x, y any) (err error) {
 			continue
 		}
 
+		if xtf.IsExported() != ytf.IsExported() {
+			// an exported field never matches an unexported
+			// one (and Interface() would panic on the latter)
+			err = errorf("Struct field visibility mismatch")
+			return
+		}
+
 		xn := xtf.Name
 		yn := ytf.Name
 
